@@ -2780,7 +2780,8 @@ class RedunBackendDb(RedunBackend):
         with with_defer_constraints(self.session):
             if not job.parent_job:
                 # Record top-level job for the execution.
-                current_execution = self._executions.pop(job.execution.id)
+                # Forget the pending execution only once it is committed (this method can be retried).
+                current_execution = self._executions[job.execution.id]
                 assert current_execution.job_id is None
                 current_execution.job_id = job.id
                 self.session.add(current_execution)
@@ -2796,8 +2797,15 @@ class RedunBackendDb(RedunBackend):
                 execution_id=job.execution.id,
             )
             self.session.add(db_job)
-            self.session.commit()
+            try:
+                self.session.commit()
+            except OperationalError:
+                if not job.parent_job:
+                    current_execution.job_id = None
+                raise
 
+        if not job.parent_job:
+            self._executions.pop(job.execution.id, None)
         return db_job
 
     @db_retry
